@@ -5,6 +5,11 @@ theorems      : coq/Props/C05.v  (dop_sound: every arm of the DifferentialOperat
 correspondence: real dx..dz / dx1..dx3 on generated expressions vs the model `dops`, and vs the reference
                 derivative `tD`, both decided inside Coq by the verified field-equality checker `tequiv`
 search oracle : explicit polynomials + sympy.diff at rational points (implementation side)
+mixed chains  : operator sequences mixing the physical and the logical family are checked BLOCK-WISE: the sequence is
+                split into maximal one-family blocks, the runner records the real expression after every block, and
+                block k is an ordinary single-family case whose input / output are serialised relative to its family
+                (chains of the other family below the outer run are opaque: they become part of the field name, see
+                tools/impl/ser.py ser_sx_rel).  Model, reference and checker are applied to every block unchanged.
 """
 import copy
 import json
@@ -35,6 +40,52 @@ Definition chk_refused (ops : list (bool * nat)) (cin : sx) : nat :=
 
 def coq_ops(ops):
     return coq_list(["(%s, %d)" % (X.coq_bool(lg), i) for lg, i in ops])
+
+
+class MixedGen(X.SxGen):
+    """trees for mixed operator sequences: no coordinates (a coordinate of one family under a derivative of the other
+    is outside the model; kept in a small share of the cases to exercise the skip)"""
+    keep_coords = False
+
+    def coord(self):
+        return X.SxGen.coord(self) if self.keep_coords else self.const()
+
+
+def blocks_of(ops):
+    """ops outermost first -> maximal one-family blocks, outermost first: [[lg, [i..]], ...]"""
+    bl = []
+    for lg, i in ops:
+        if not bl or bl[-1][0] != bool(lg):
+            bl.append([bool(lg), []])
+        bl[-1][1].append(i)
+    return bl
+
+
+def is_mixed(c):
+    return len(blocks_of(c["ops"])) > 1
+
+
+def pattern(ops):
+    return "".join("L" if lg else "P" for lg, _ in blocks_of(ops))
+
+
+def gen_mixed(rng, tier):
+    """2-3 alternating blocks of physical / logical operators (both orders) over a tree of either family"""
+    quick = tier == "quick"
+    dim = rng.choice([1, 2, 3, 3])
+    while True:
+        lens = [rng.randint(1, 2 if quick else 3) for _ in range(rng.choice([2, 3]))]
+        if sum(lens) <= (4 if quick else 6):
+            break
+    fam = rng.random() < 0.5                      # family of the outermost block
+    ops = []
+    for n in lens:
+        ops += [[fam, rng.randrange(dim)] for _ in range(n)]
+        fam = not fam
+    g = MixedGen(rng, dim=dim, lg=rng.random() < 0.5, max_order=2)
+    g.keep_coords = rng.random() < 0.08
+    tree = g.expr(rng.randint(0, 2 if quick else 3))
+    return {"kind": "mixed", "dim": dim, "tree": tree, "ops": ops, "seed": rng.randrange(1 << 30)}
 
 
 def gen_case(rng, tier, idx):
@@ -89,6 +140,13 @@ def subtrees(j):
         yield j["b"]
     elif k == "fn":
         yield j["a"]
+    elif k == "at" and j.get("t") == "fld" and any(j["al"]):
+        for i, n in enumerate(j["al"]):          # one derivative less inside the atom
+            if n:
+                al = j["al"][:i] + [n - 1] + j["al"][i + 1:]
+                while al and al[-1] == 0:
+                    al.pop()
+                yield dict(j, al=al)
 
 
 def main(run, replay=None):
@@ -105,6 +163,9 @@ def main(run, replay=None):
         if corpus_f.exists():
             cases += json.load(open(corpus_f))
         cases += [gen_case(rng, run.tier, i) for i in range(n)]
+        # mixed physical/logical operator sequences: generated after the single-family cases (whose random stream is
+        # therefore unchanged)
+        cases += [gen_mixed(rng, run.tier) for _ in range(72 if quick else 480)]
 
     nb = 16
     outs = run.impl_parallel("C05_impl", [{"cases": cases[i::nb]} for i in range(nb) if cases[i::nb]], timeout=3000)
@@ -121,34 +182,54 @@ def main(run, replay=None):
             results[i] = r
 
     # ---- Coq: model and reference vs implementation
+    # a unit = one single-family application (ops, input, output): the whole case, or one block of a mixed case
+    def units_of(c, r):
+        if "blocks" in r:
+            return [([[b["fam"], i] for _, i in b["ops"]], b.get("in"), b.get("out")) for b in r["blocks"]
+                    if b.get("in") is not None and b.get("out") is not None]
+        return [(c["ops"], r["in"], r["out"])]
+
     terms, owners = [], []
     for ci, (c, r) in enumerate(zip(cases, results)):
         if r is None or "crash" in r:
             continue
-        out = r["out"]
-        if "err" in out:
-            if out["err"] == "not-implemented" and r["in"].get("k") != "mat":
-                terms.append("chk_refused %s %s" % (coq_ops(c["ops"]), X.coq_sx(r["in"])))
-                owners.append((ci, "refused"))
-            continue
-        if len(json.dumps(out)) > 60000 or len(json.dumps(r["in"])) > 30000:
-            continue        # expression swell: decided by the numeric oracle only (counted as checker_incomplete)
-        if r["in"].get("k") == "mat":
-            fin = [e for row in r["in"]["rows"] for e in row]
-            fout = [e for row in out["rows"] for e in row] if out.get("k") == "mat" else [out]
-            terms.append("chk_list %s %s %s" % (coq_ops(c["ops"]), coq_list([X.coq_sx(e) for e in fin]),
-                                               coq_list([X.coq_sx(e) for e in fout])))
-            owners.append((ci, "value"))
-            continue
-        if out.get("k") == "mat":
-            continue
-        terms.append("chk %s %s %s" % (coq_ops(c["ops"]), X.coq_sx(r["in"]), X.coq_sx(out)))
-        owners.append((ci, "value"))
+        for ui, (uops, uin, out) in enumerate(units_of(c, r)):
+            if "err" in out:
+                if out["err"] == "not-implemented" and uin.get("k") != "mat":
+                    terms.append("chk_refused %s %s" % (coq_ops(uops), X.coq_sx(uin)))
+                    owners.append((ci, ui, "refused"))
+                continue
+            if len(json.dumps(out)) > 60000 or len(json.dumps(uin)) > 30000:
+                continue        # expression swell: decided by the numeric oracle only (counted as checker_incomplete)
+            if uin.get("k") == "mat":
+                fin = [e for row in uin["rows"] for e in row]
+                fout = [e for row in out["rows"] for e in row] if out.get("k") == "mat" else [out]
+                terms.append("chk_list %s %s %s" % (coq_ops(uops), coq_list([X.coq_sx(e) for e in fin]),
+                                                   coq_list([X.coq_sx(e) for e in fout])))
+                owners.append((ci, ui, "value"))
+                continue
+            if out.get("k") == "mat":
+                continue
+            terms.append("chk %s %s %s" % (coq_ops(uops), X.coq_sx(uin), X.coq_sx(out)))
+            owners.append((ci, ui, "value"))
     vals = run.coq_eval_terms(HEADER, terms, per=40, timeout=600, tag="cases")
-    code = {}
-    for (ci, what), v in zip(owners, vals):
+    ucode = {}
+    for (ci, ui, what), v in zip(owners, vals):
         if v is not None:
-            code[ci] = (what, int(v))
+            ucode[(ci, ui)] = (what, int(v))
+    # per case: the refusal code of the refusing unit, resp. the worst (model, reference) codes over the value units
+    code = {}
+    for ci, (c, r) in enumerate(zip(cases, results)):
+        if r is None or "crash" in r:
+            continue
+        us = units_of(c, r)
+        if "err" in r["out"]:
+            if us and (ci, len(us) - 1) in ucode and ucode[(ci, len(us) - 1)][0] == "refused":
+                code[ci] = ucode[(ci, len(us) - 1)]
+            continue
+        vs = [ucode.get((ci, ui), ("value", 8))[1] for ui in range(len(us))]
+        if vs:
+            code[ci] = ("value", max(v // 3 for v in vs) * 3 + max(v % 3 for v in vs))
     for err in getattr(run, "coq_errors", [])[:1]:
         run.report({"kind": "cases-file"}, "a generated case does not type-check in Coq", {"log": err},
                    found_input=False, theorem_or_case="cases_C05")
@@ -157,13 +238,11 @@ def main(run, replay=None):
     stats = {"proved_equal_to_reference": 0, "model_agrees": 0, "model_none": 0, "checker_incomplete": 0,
              "model_unproved": 0, "refused_both": 0, "impl_refused_model_value": 0, "oracle_checked": 0,
              "unsupported_node": 0}
+    mixed = {"cases": 0, "value_returned": 0, "blocks_checked": 0, "blocks_proved_equal_to_reference": 0,
+             "blocks_model_agrees": 0, "skipped_other_family_coordinate": 0, "patterns": {}}
     failing = []
 
-    def oracle_fails(c):
-        r, _ = run.impl("C05_impl", {"cases": [c]})
-        if not r:
-            return False
-        r = r["results"][0]
+    def result_fails(r):
         if "crash" in r:
             return False
         if "err" in r["out"]:
@@ -172,6 +251,18 @@ def main(run, replay=None):
                  and r["out"]["arg"].get("k") != "mat" and not has_fn_of_field(r["out"]["arg"]))
         return r.get("oracle", {}).get("ok") is False
 
+    def first_failing(cands):
+        """index of the first candidate on which the implementation still fails (one runner process for all)"""
+        if not cands:
+            return None
+        r, _ = run.impl("C05_impl", {"cases": cands}, timeout=900)
+        if not r:
+            return None
+        for k, x in enumerate(r["results"]):
+            if result_fails(x):
+                return k
+        return None
+
     for ci, (c, r) in enumerate(zip(cases, results)):
         if r is None:
             continue
@@ -179,9 +270,23 @@ def main(run, replay=None):
             failing.append((ci, "crash", "the runner crashed on this input: " + r["crash"][-300:]))
             continue
         out = r["out"]
+        if is_mixed(c):
+            mixed["cases"] += 1
+            pt = pattern(c["ops"])
+            mixed["patterns"][pt] = mixed["patterns"].get(pt, 0) + 1
+            for ui, b in enumerate(r.get("blocks", [])):
+                if "out" in b and "err" not in b["out"]:
+                    mixed["blocks_checked"] += 1
+                    v = ucode.get((ci, ui), ("value", 8))[1]
+                    mixed["blocks_proved_equal_to_reference"] += 1 if v % 3 == 0 else 0
+                    mixed["blocks_model_agrees"] += 1 if v // 3 == 0 else 0
+            if "err" not in out:
+                mixed["value_returned"] += 1
         if "err" in out:
             if out["err"] == "unsupported-node":
                 stats["unsupported_node"] += 1
+                if "other-family" in out.get("msg", ""):
+                    mixed["skipped_other_family_coordinate"] += 1
                 continue
             if out["err"] == "not-implemented":
                 arg = out.get("arg")
@@ -213,36 +318,50 @@ def main(run, replay=None):
         else:
             stats["model_unproved"] += 1
 
-    reported = set()
+    def shrink_candidates(best):
+        """smaller cases: a whole block dropped, a single operator dropped, a sub-tree instead of the tree"""
+        cands = []
+        ops = best["ops"]
+        bl = blocks_of(ops)
+        if len(bl) > 1:
+            pos = 0
+            for lg, idx in bl:
+                cands.append(dict(best, ops=ops[:pos] + ops[pos + len(idx):]))
+                pos += len(idx)
+        if len(ops) > 1:
+            for k in [0, len(ops) - 1] + list(range(1, len(ops) - 1)):
+                c2 = dict(best, ops=ops[:k] + ops[k + 1:])
+                if c2 not in cands:
+                    cands.append(c2)
+        for st in subtrees(best["tree"]):
+            cands.append(dict(best, tree=st))
+        return cands[:24]
+
+    failing.sort(key=lambda f: (is_mixed(cases[f[0]]), f[0]))     # single-family inputs first
+    reported, reported_sigs = set(), set()
     for ci, kind, msg in failing:
         c = cases[ci]
-        sig = {"kind": kind}
-        if kind in reported:
+        if (kind, is_mixed(c)) in reported:
             continue
-        reported.add(kind)
+        reported.add((kind, is_mixed(c)))
         best = copy.deepcopy(c)
         if not replay and kind != "crash":
-            # shrink: fewer operators, smaller tree
-            improved = True
-            budget = 25
-            while improved and budget > 0:
-                improved = False
-                for cand_ops in ([best["ops"][1:]] if len(best["ops"]) > 1 else []) + ([best["ops"][:-1]] if len(best["ops"]) > 1 else []):
-                    c2 = dict(best, ops=cand_ops)
-                    budget -= 1
-                    if oracle_fails(c2):
-                        best = c2; improved = True
-                        break
-                if improved:
-                    continue
-                for st in subtrees(best["tree"]):
-                    c2 = dict(best, tree=st)
-                    budget -= 1
-                    if budget <= 0:
-                        break
-                    if oracle_fails(c2):
-                        best = c2; improved = True
-                        break
+            # shrink: fewer blocks / operators, smaller tree
+            for _ in range(12):
+                cands = shrink_candidates(best)
+                k = first_failing(cands)
+                if k is None:
+                    break
+                best = cands[k]
+        sig = {"kind": kind}
+        if is_mixed(best):
+            sig["mixed"] = True          # the failure needs an operator sequence mixing the two families
+            best["kind"] = "mixed"
+        elif best.get("kind") == "mixed":
+            best["kind"] = "supported"
+        if json.dumps(sig, sort_keys=True) in reported_sigs:
+            continue
+        reported_sigs.add(json.dumps(sig, sort_keys=True))
         rr, _ = run.impl("C05_impl", {"cases": [best]})
         obs = rr["results"][0] if rr else None
         run.report(sig, "C05 fails on the implementation: " + msg, best, observed=obs,
@@ -283,20 +402,33 @@ def main(run, replay=None):
         "decisions": stats,
         "input_kinds": {"supported": sum(1 for c in cases if c["kind"] == "supported"),
                         "fn_of_field": sum(1 for c in cases if c["kind"] == "fn_of_field"),
-                        "tensor": sum(1 for c in cases if c["kind"] == "tensor")},
+                        "tensor": sum(1 for c in cases if c["kind"] == "tensor"),
+                        "mixed": sum(1 for c in cases if is_mixed(c))},
+        "mixed_operator_sequences": mixed,
         "size_histogram": size_hist, "operator_chain_length": ops_hist, "dimension": dims, "node_kinds": node_hist,
-        "samples": cases[:2],
+        "samples": cases[:2] + [c for c in cases if is_mixed(c)][:1],
         "exhaustive": False,
         "trusted_base": ["tools/impl/ser.py (sympy <-> JSON serialiser, incl. the exponent law b^(e+n)=b^e b^n used to split "
                          "integer shifts of general powers), tools/impl/C05_impl.py, tools/props/C05.py, tools/exprlib.py",
                          "sympy's Add/Mul/Pow canonicalisation and sympy.diff (modelled by the reference derivative tD)",
-                         "DESIGN 4.2: a differential field (record dfield) as the reading of 'all smooth functions and points'"],
+                         "DESIGN 4.2: a differential field (record dfield) as the reading of 'all smooth functions and points'",
+                         "mixed physical/logical operator sequences are checked block-wise with OPAQUE inner blocks "
+                         "(harness-level argument, not formalised in Coq): a derivative chain of the other family below the "
+                         "outer run of a block's family is an element of the differential field like any other, so "
+                         "tools/impl/ser.py ser_sx_rel renames it to a fresh field symbol (name = function name + '@P'/'@L' + "
+                         "multi-index per inner run; chains of one family with the same multi-index are identified, which "
+                         "uses the commutation of the derivations of one family) and model, reference and checker are applied "
+                         "to each block unchanged; Props/C05.v C05_blocks_compose / C05_blocks_sound give the composition of "
+                         "consecutive blocks inside the model"],
     }
     assumptions = [
         "Theorems are about coq/Model/DOpM.v; tie to sympde/topology/derivatives.py = this run's correspondence "
         "(model output and reference derivative proved equal to the implementation's output per case by tequiv).",
         "Vectors / tuples / matrices are differentiated entry-wise by the code; only scalar arguments are modelled here.",
-        "Mixed physical-of-logical derivative chains and normal-vector components are not modelled (the model refuses).",
+        "Mixed physical/logical derivative chains are not atoms of the model: compositions mixing the two operator families "
+        "are checked block by block, each block relative to its own family with the chains of the other family as opaque "
+        "field symbols; a coordinate or mapping component of the other family under a derivative is skipped and counted "
+        "(mixed_operator_sequences.skipped_other_family_coordinate). Normal-vector components are not modelled.",
         "tequiv=false is 'not proved': such cases are decided by the numeric oracle only and counted as checker_incomplete.",
     ]
     return run.finish(cov, assumptions)
